@@ -27,6 +27,8 @@ def proj_key(p):
             continue
         if isinstance(e, dict):
             if 'f' in e:
+                if e.get('ty', '').startswith(('std::ptr::Unique<', 'std::ptr::NonNull<', '*const ', '*mut ')):
+                    continue    # Box<T> deref elaborated into pointer-field projections
                 out.append(('f', e['f']))
             elif 'dc' in e:
                 out.append(('dc', e['dc']))
